@@ -69,7 +69,15 @@ void h_search_order(void) {
     char *q = search_include_next(names[n2]);
     int want2 = first_hit(want + 1, n2);
     if (want2 < 0) VASSERT(q == NULL, "include_next: no later directory has the file: NULL");
-    else VASSERT(path_is(q, want2, n2), "search_include_next continues behind the directory of the current file");
+    else {
+      VASSERT(path_is(q, want2, n2), "search_include_next continues behind the directory of the current file");
+      // a chain: the file just found contains #include_next of the same name again -> strictly later directory
+      // (otherwise three same-named headers chained with #include_next recurse for ever)
+      char *r = search_include_next(names[n2]);
+      int want3 = first_hit(want2 + 1, n2);
+      if (want3 < 0) VASSERT(r == NULL, "include_next chain: no later directory has the file: NULL");
+      else VASSERT(path_is(r, want3, n2), "include_next chain: the second #include_next finds the NEXT directory, not the same file again");
+    }
   }
   VCOVER();
 }
